@@ -478,3 +478,57 @@ Proof.
   - subst l. reflexivity.
   - rewrite (Hwf ltac:(destruct (has_param vc); [discriminate | reflexivity])). reflexivity.
 Qed.
+
+(* ------------------------------------------------------------------ constants BY NAME *)
+(* ConstCode<{code_consts::ZETA3}> etc.: the published name of a code, looked up in the generated
+   `code_consts` table, selects a const arm that performs that very code *)
+Definition named_codes : list code :=
+  flat_map (fun v => map (fun p => {| cvar := v; cparam := p |}) (nrange 11)) all_variants.
+Definition named_ok (c : code) : bool :=
+  match const_name c with
+  | None => true
+  | Some _ => forallb (fun op => match named_const_call op c with
+                                 | Some cl => same_code op cl (direct_call c) | None => false end) ops3
+  end.
+Lemma named_all_ok : forallb named_ok named_codes = true.
+Proof. vm_compute. reflexivity. Qed.
+
+Definition canon (c : code) : code :=
+  {| cvar := cvar c; cparam := if has_param (cvar c) then cparam c else 0 |}.
+Lemma canon_facts c :
+  const_name c = const_name (canon c) /\ direct_call c = direct_call (canon c) /\
+  (forall op, named_const_call op c = named_const_call op (canon c)) /\
+  (forall nm, const_name c = Some nm -> cparam (canon c) <= 10).
+Proof.
+  destruct c as [v p].
+  assert (const_name {| cvar := v; cparam := p |} = const_name (canon {| cvar := v; cparam := p |})) as H1
+    by (destruct v; reflexivity).
+  split; [exact H1|]. split; [destruct v; reflexivity|]. split.
+  - intros op. unfold named_const_call. rewrite <- H1. reflexivity.
+  - intros nm. unfold const_name, canon. cbn [cvar cparam].
+    destruct v; cbn [has_param]; intros H; try lia;
+      match type of H with (if ?b then _ else _) = _ => destruct b eqn:Hb; [lia | discriminate] end.
+Qed.
+
+Theorem const_by_name c nm op : const_name c = Some nm ->
+  exists cl, named_const_call op c = Some cl /\ same_code op cl (direct_call c) = true.
+Proof.
+  intros Hn. destruct (canon_facts c) as (H1 & H2 & H3 & H4).
+  specialize (H4 nm Hn). rewrite H3, H2. rewrite H1 in Hn.
+  pose proof named_all_ok as HH. rewrite forallb_forall in HH.
+  assert (In (canon c) named_codes) as Hin.
+  { unfold named_codes. apply in_flat_map. exists (cvar c). split.
+    - apply all_variants_In.
+    - unfold canon at 1. apply in_map_iff. exists (cparam (canon c)). split; [reflexivity|].
+      apply nrange_In. lia. }
+  specialize (HH _ Hin). unfold named_ok in HH. rewrite Hn in HH. rewrite forallb_forall in HH.
+  assert (In op ops3) as Hop by (destruct op; cbn; auto).
+  specialize (HH op Hop). destruct (named_const_call op (canon c)) as [cl|]; [|discriminate].
+  exists cl. auto.
+Qed.
+
+(* every name the module publishes is one of these (nothing published is left unchecked) *)
+Lemma published_names_covered :
+  forallb (fun '(nm, _) => existsb (fun c => match const_name c with Some n => String.eqb n nm | None => false end) named_codes)
+          code_consts = true.
+Proof. vm_compute. reflexivity. Qed.
